@@ -5,7 +5,10 @@ package harness
 
 import (
 	"context"
+	"errors"
 	"fmt"
+	"io"
+	"net"
 	"net/http"
 	"sort"
 	"strings"
@@ -20,6 +23,7 @@ import (
 	"pgregory.net/rapid"
 
 	pb "github.com/fullstorydev/grpchan/grpchantesting"
+	"github.com/fullstorydev/grpchan/httpgrpc"
 )
 
 type c05Case struct {
@@ -42,6 +46,72 @@ type c05Case struct {
 	UnaryFinal string   `json:",omitempty"` // nil | status | ctx
 	UnaryEnd   string   `json:",omitempty"` // none | cancel | deadline
 	UnaryReps  int      `json:",omitempty"` // Go's select picks randomly among ready cases
+	// DialFailMs > 0: separate mode - the connection attempt of a streaming call fails after this many milliseconds
+	// (refused, timeout, DNS) while the caller's context stays alive; the client has started sending meanwhile. Every
+	// operation comes back, and nothing of the library is left behind.
+	DialFailMs int `json:",omitempty"`
+}
+
+var errC05Dial = errors.New("dial tcp 203.0.113.1:443: connect: connection refused (injected)")
+
+func c05DialFail(c c05Case) *Outcome {
+	o := &Outcome{NonTrivial: true}
+	o.class("carrier=%s/kind=%s", "http-client", c.Kind)
+	o.class("dial-fails-after=%dms", c.DialFailMs)
+	c05Serial.Lock()
+	defer c05Serial.Unlock()
+	before, _ := libraryGoroutines()
+	tr := &http.Transport{DialContext: func(ctx context.Context, network, addr string) (net.Conn, error) {
+		select {
+		case <-time.After(time.Duration(c.DialFailMs) * time.Millisecond):
+		case <-ctx.Done():
+		}
+		return nil, errC05Dial
+	}}
+	defer tr.CloseIdleConnections()
+	ch := &httpgrpc.Channel{Transport: tr, BaseURL: baseURL}
+	ctx, cancel := context.WithCancel(context.Background())
+	defer cancel()
+	var sendErr, recvErr, hdrErr error
+	stall := guard("client operations of a call whose connection attempt fails", func() {
+		cs, err := ch.NewStream(ctx, streamDescOf(c.Kind), methodOf(c.Kind))
+		if err != nil {
+			recvErr = err
+			return
+		}
+		done := make(chan struct{})
+		go func() {
+			defer close(done)
+			for i := 0; i < 3; i++ {
+				if sendErr = cs.SendMsg(&pb.Message{Payload: []byte("chunk")}); sendErr != nil {
+					return
+				}
+			}
+		}()
+		_, hdrErr = cs.Header()
+		recvErr = cs.RecvMsg(new(pb.Message))
+		<-done
+		cs.CloseSend()
+	})
+	o.Observed = map[string]interface{}{"send": errStr(sendErr), "recv": errStr(recvErr), "header": errStr(hdrErr)}
+	if stall != "" {
+		return o.failf("http client/%s: the connection attempt failed after %d ms, the caller's context is alive: %s", c.Kind, c.DialFailMs, firstLine(stall))
+	}
+	if recvErr == nil || recvErr == io.EOF {
+		return o.failf("http client/%s: the connection attempt failed, RecvMsg returned %v", c.Kind, recvErr)
+	}
+	deadline := time.Now().Add(3 * time.Second)
+	for {
+		n, dump := libraryGoroutines()
+		if n <= before {
+			break
+		}
+		if time.Now().After(deadline) {
+			return o.failf("http client/%s: %d library goroutine(s) still alive 3s after a call whose connection attempt failed (caller's context alive):\n%s", c.Kind, n-before, trimDump(dump))
+		}
+		time.Sleep(500 * time.Microsecond)
+	}
+	return o
 }
 
 type schedResult struct {
@@ -457,6 +527,9 @@ func c05Unary(c c05Case) *Outcome {
 }
 
 func propC05(c c05Case) *Outcome {
+	if c.DialFailMs > 0 {
+		return c05DialFail(c)
+	}
 	if c.Kind == kUnary {
 		return c05Unary(c)
 	}
@@ -774,6 +847,9 @@ func genStepsFor(t *rapid.T, kind string, allowCancel bool, maxSteps int, second
 }
 
 func genC05(t *rapid.T) c05Case {
+	if rapid.IntRange(0, 39).Draw(t, "dialfail") == 0 {
+		return c05Case{Carrier: cHTTP, Kind: rapid.SampledFrom([]string{kClientStream, kBidi, kServerStream}).Draw(t, "dfkind"), DialFailMs: rapid.SampledFrom([]int{1, 20, 100}).Draw(t, "dfms")}
+	}
 	if rapid.IntRange(0, 11).Draw(t, "unary") == 0 {
 		c := c05Case{Carrier: rapid.SampledFrom([]string{cInproc, cInproc, cInproc, cHTTP, cHTTPMux, cHTTPPer}).Draw(t, "ucarrier"), Kind: kUnary}
 		c.UnaryOps = rapid.SliceOfN(rapid.SampledFrom([]string{"sethdr", "sendhdr", "settlr"}), 0, 3).Draw(t, "uops")
@@ -843,7 +919,7 @@ func init() { registerReplay("C05", propC05) }
 
 const c05Rule = "rapid-generated schedules of <=14 steps over three actors (client sender: SendMsg small/medium, CloseSend also repeated; client receiver: RecvMsg, Header, Trailer; handler: RecvMsg, SendMsg, SetHeader, SendHeader, SetTrailer, return ok/err) plus cancellation, on the in-process channel, httpgrpc.Server and HandleServices for client-, server- and bidi-streaming; each step is released when the previous one has returned or parked (goroutine state from runtime.Stack); " +
 	"then phase A (client closes and drains, handler returns), phase B (context cancelled), operations after completion, goroutine census; invariants: no panic; everything finishes in phase A (10 s, stable park = deadlock) and certainly in phase B; later operations return; without cancellation sends return nil or io.EOF (EOF only once the handler returned), receives are an intact prefix of what the handler sent followed by the handler's status, stable across repeated calls; no library goroutine survives; " +
-	"also generated since the seeded rounds: a second client goroutine calling CloseSend, a second handler goroutine (in-process) incl. SendHeader after the handler returned, sends above 256 KiB, undecodable reply headers and HTTP-level rejection (401/403/404/415/502/503 from a middleware: only termination, panics and leaks judged), senders-only drain stage, a second receiving goroutine calling Header() concurrently with RecvMsg, the per-method HTTP server form, handlers answering a single-response method 3..5 times, a sender 2..4 messages ahead of a handler that sets headers/trailers and leaves, a handler that returns while its helper goroutine and the client's sender are both parked in sends, and a goroutine census taken before any cancellation once the client has received the final status; unary calls (3..8 in a row) that the caller abandons by cancellation or deadline while the handler is at work, the handler then setting/sending headers and trailers in any order and returning nil, a status or its context's error (call returns, handler operations return, no library goroutine left); " +
+	"also generated since the seeded rounds: a second client goroutine calling CloseSend, a second handler goroutine (in-process) incl. SendHeader after the handler returned, sends above 256 KiB, undecodable reply headers and HTTP-level rejection (401/403/404/415/502/503 from a middleware: only termination, panics and leaks judged), senders-only drain stage, a second receiving goroutine calling Header() concurrently with RecvMsg, the per-method HTTP server form, handlers answering a single-response method 3..5 times, a sender 2..4 messages ahead of a handler that sets headers/trailers and leaves, a handler that returns while its helper goroutine and the client's sender are both parked in sends, and a goroutine census taken before any cancellation once the client has received the final status; streaming calls whose connection attempt fails after 1..100 ms while the client has started sending and the caller's context stays alive; unary calls (3..8 in a row) that the caller abandons by cancellation or deadline while the handler is at work, the handler then setting/sending headers and trailers in any order and returning nil, a status or its context's error (call returns, handler operations return, no library goroutine left); " +
 	"non-trivial = a scheduled client operation was pending or issued after the handler returned; distinct by case hash"
 
 func TestC05(t *testing.T) {
